@@ -697,6 +697,8 @@ def check(run):
     check_stale_loop_variables(run, A, ('pb_bss.permutation_alignment',))
     from ..opt import check_extent_loops
     check_extent_loops(run, A, ('pb_bss.permutation_alignment',))
+    from ..opt import check_block_partitions
+    check_block_partitions(run, A, ('pb_bss.permutation_alignment',))
     from ..opt import check_layout_dependent_flatten
     check_layout_dependent_flatten(run, A, ('pb_bss.permutation_alignment',))
     from ..opt import check_result_buffers
